@@ -478,3 +478,7 @@ NOT_APPLICABLE = {
     "C01": "liveness over unbounded multi-node histories under fairness; no contract on one call expresses 'within a bounded number of handshakes' (its per-handshake progress sentence is decided under C14: lemma_agree + lemma_admitted_strictly_advances)",
     "C19": "async select loop, channels, lock ordering and shutdown liveness: concurrency and whole-history behaviour that neither Verus nor Kani models",
 }
+# C11's "live => >= 2 reports" also rests on a fresh window being empty and on a cleared / reset window
+# really forgetting its intervals: the same U4 obligations C10 carries are reported under C11 as well.
+PROPS["C11"]["verus"].append({"unit": U4, "fns": ["SamplingWindow::new", "SamplingWindow::reset", "BoundedArrayStats::append", "BoundedArrayStats::len", "BoundedArrayStats::clear"]})
+PROPS["C11"]["level_text"] += " The supporting window operations are carried as C11 obligations too: a fresh window (SamplingWindow::new) holds no interval and no last heartbeat, reset / clear bring the interval count back to 0, and append adds at most one interval - so stale intervals cannot stand in for fresh reports after a member was declared dead."
